@@ -79,66 +79,6 @@ func cmdList() int {
 	return 0
 }
 
-// solveOne discharges one obligation.
-func solveOne(L *Loaded, rep *vc.FuncReport, ob *vc.Obligation, timeout, seed int, extra []*smt.Term) {
-	if ob.Verdict == "trivial" {
-		ob.Verdict = "unsat"
-		ob.Solver = "simplifier"
-		return
-	}
-	X := L.Engine.X
-	if ob.Split != nil && extra == nil {
-		solveSplit(L, rep, ob, timeout, seed)
-		return
-	}
-	if extra == nil && os.Getenv("GOVC_NOCHUNK") == "" {
-		scriptMu.Lock()
-		cs := L.Engine.WideConjuncts(ob.Goal)
-		scriptMu.Unlock()
-		if len(cs) >= 24 {
-			solveChunks(L, rep, ob, cs, timeout, seed)
-			return
-		}
-	}
-	scriptMu.Lock()
-	asserts := append([]*smt.Term{}, rep.Assumptions[:ob.NAssume]...)
-	asserts = append(asserts, extra...)
-	asserts = append(asserts, ob.PC, X.Not(ob.Goal))
-	var gets []*smt.Term
-	for _, o := range rep.Observe {
-		gets = append(gets, o.T)
-	}
-	sc := X.Script(asserts, gets, "ALL", true)
-	abs := X.ScriptAbstract(asserts)
-	scriptMu.Unlock()
-	res, err := smt.SolveWithAbstraction(sc, abs, len(gets), timeout, seed, os.Getenv("GOVC_SOLVER"))
-	if err != nil {
-		ob.Verdict = "error"
-		ob.Raw = err.Error()
-		return
-	}
-	ob.Verdict = res.Verdict.String()
-	ob.Solver = res.Solver
-	ob.Seconds = res.Seconds
-	ob.Raw = res.Raw
-	if res.Verdict == smt.Sat {
-		ob.Model = map[string]uint64{}
-		for i, o := range rep.Observe {
-			if i < len(res.HasVal) && res.HasVal[i] {
-				ob.Model[o.Name] = res.Values[i]
-			}
-		}
-	}
-	if os.Getenv("GOVC_KEEP") != "" && res.Verdict != smt.Unsat {
-		os.MkdirAll(os.Getenv("GOVC_KEEP"), 0o755)
-		fn := strings.NewReplacer("/", "_", "#", "_", ":", "_", " ", "_", "*", "", "(", "", ")", "", "…", "").Replace(ob.Name)
-		if len(fn) > 120 {
-			fn = fn[:120]
-		}
-		os.WriteFile(os.Getenv("GOVC_KEEP")+"/"+fn+".smt2", []byte(sc.Text), 0o644)
-	}
-}
-
 type job struct {
 	rep *vc.FuncReport
 	ob  *vc.Obligation
@@ -273,170 +213,4 @@ func modelString(rep *vc.FuncReport, ob *vc.Obligation) string {
 		}
 	}
 	return strings.Join(parts, " ")
-}
-
-// solveSplit proves an obligation by exhaustive case analysis on a loop variable with a small
-// constant range: one query per value with the value substituted (so spec functions fold), plus
-// one query showing that the range covers every case.
-func solveSplit(L *Loaded, rep *vc.FuncReport, ob *vc.Obligation, timeout, seed int) {
-	X := L.Engine.X
-	sp := ob.Split
-	w := sp.Var.S.W
-	type sub struct {
-		asserts []*smt.Term
-		label   string
-	}
-	var subs []sub
-	scriptMu.Lock()
-	base := append([]*smt.Term{}, rep.Assumptions[:ob.NAssume]...)
-	// coverage: within the assumptions and path condition the variable lies in [Lo,Hi)
-	inRange := X.And(X.Sle(X.Const(uint64(int64(sp.Lo)), w), sp.Var), X.Slt(sp.Var, X.Const(uint64(int64(sp.Hi)), w)))
-	subs = append(subs, sub{append(append([]*smt.Term{}, base...), ob.PC, X.Not(inRange)), "coverage"})
-	for k := sp.Lo; k < sp.Hi; k++ {
-		m := map[*smt.Term]*smt.Term{sp.Var: X.Const(uint64(int64(k)), w)}
-		var as []*smt.Term
-		for _, a := range base {
-			as = append(as, X.Subst(a, m))
-		}
-		as = append(as, X.Subst(ob.PC, m), X.Not(X.Subst(ob.Goal, m)))
-		subs = append(subs, sub{as, fmt.Sprintf("%s=%d", sp.Var.Name, k)})
-	}
-	var gets []*smt.Term
-	for _, o := range rep.Observe {
-		gets = append(gets, o.T)
-	}
-	var scripts, absScripts []*smt.Script
-	for _, s := range subs {
-		scripts = append(scripts, X.Script(s.asserts, gets, "ALL", true))
-		absScripts = append(absScripts, X.ScriptAbstract(s.asserts))
-	}
-	scriptMu.Unlock()
-	ob.Verdict = "unsat"
-	ob.Solver = ""
-	solvers := map[string]bool{}
-	results := make([]*smt.Result, len(scripts))
-	errs := make([]error, len(scripts))
-	var wg sync.WaitGroup
-	sem := make(chan struct{}, 6)
-	t0 := time.Now()
-	for i := range scripts {
-		i := i
-		wg.Add(1)
-		go func() {
-			defer wg.Done()
-			sem <- struct{}{}
-			defer func() { <-sem }()
-			results[i], errs[i] = smt.SolveWithAbstraction(scripts[i], absScripts[i], len(gets), timeout, seed, os.Getenv("GOVC_SOLVER"))
-		}()
-	}
-	wg.Wait()
-	ob.Seconds = time.Since(t0).Seconds()
-	for i, res := range results {
-		if errs[i] != nil {
-			ob.Verdict, ob.Raw = "error", errs[i].Error()
-			return
-		}
-		solvers[res.Solver] = true
-		if res.Verdict != smt.Unsat {
-			if os.Getenv("GOVC_KEEP") != "" {
-				os.MkdirAll(os.Getenv("GOVC_KEEP"), 0o755)
-				os.WriteFile(fmt.Sprintf("%s/split_%d.smt2", os.Getenv("GOVC_KEEP"), i), []byte(scripts[i].Text), 0o644)
-			}
-			ob.Verdict = res.Verdict.String()
-			ob.Solver = res.Solver
-			ob.Raw = "case " + subs[i].label + ": " + res.Raw
-			if res.Verdict == smt.Sat {
-				ob.Model = map[string]uint64{}
-				for j, o := range rep.Observe {
-					if j < len(res.HasVal) && res.HasVal[j] {
-						ob.Model[o.Name] = res.Values[j]
-					}
-				}
-			}
-			return
-		}
-	}
-	var ss []string
-	for s := range solvers {
-		ss = append(ss, s)
-	}
-	sort.Strings(ss)
-	ob.Solver = strings.Join(ss, "+") + fmt.Sprintf(" (%d cases)", len(subs))
-}
-
-// solveChunks proves a wide conjunction (a 188-fold expanded forall) piecewise: the conjuncts are
-// grouped and each group is a separate query; all must be unsat.
-func solveChunks(L *Loaded, rep *vc.FuncReport, ob *vc.Obligation, cs []*smt.Term, timeout, seed int) {
-	X := L.Engine.X
-	const chunk = 12
-	var scripts, absScripts []*smt.Script
-	var gets []*smt.Term
-	for _, o := range rep.Observe {
-		gets = append(gets, o.T)
-	}
-	scriptMu.Lock()
-	base := append([]*smt.Term{}, rep.Assumptions[:ob.NAssume]...)
-	base = append(base, ob.PC)
-	for i := 0; i < len(cs); i += chunk {
-		j := i + chunk
-		if j > len(cs) {
-			j = len(cs)
-		}
-		as := append(append([]*smt.Term{}, base...), X.Not(X.And(cs[i:j]...)))
-		scripts = append(scripts, X.Script(as, gets, "ALL", true))
-		absScripts = append(absScripts, X.ScriptAbstract(as))
-	}
-	scriptMu.Unlock()
-	results := make([]*smt.Result, len(scripts))
-	errs := make([]error, len(scripts))
-	var wg sync.WaitGroup
-	sem := make(chan struct{}, 6)
-	t0 := time.Now()
-	for i := range scripts {
-		i := i
-		wg.Add(1)
-		go func() {
-			defer wg.Done()
-			sem <- struct{}{}
-			defer func() { <-sem }()
-			results[i], errs[i] = smt.SolveWithAbstraction(scripts[i], absScripts[i], len(gets), timeout, seed, os.Getenv("GOVC_SOLVER"))
-		}()
-	}
-	wg.Wait()
-	ob.Seconds = time.Since(t0).Seconds()
-	ob.Verdict = "unsat"
-	solvers := map[string]bool{}
-	for i, res := range results {
-		if errs[i] != nil {
-			ob.Verdict, ob.Raw = "error", errs[i].Error()
-			return
-		}
-		solvers[res.Solver] = true
-		if res.Verdict != smt.Unsat {
-			// prefer reporting a definite counterexample over an undecided chunk
-			if ob.Verdict == "sat" {
-				continue
-			}
-			ob.Verdict = res.Verdict.String()
-			ob.Solver = res.Solver
-			ob.Raw = fmt.Sprintf("conjuncts %d..%d: %s", i*chunk, i*chunk+chunk-1, res.Raw)
-			if res.Verdict == smt.Sat {
-				ob.Model = map[string]uint64{}
-				for j, o := range rep.Observe {
-					if j < len(res.HasVal) && res.HasVal[j] {
-						ob.Model[o.Name] = res.Values[j]
-					}
-				}
-			}
-		}
-	}
-	if ob.Verdict != "unsat" {
-		return
-	}
-	var ss []string
-	for s := range solvers {
-		ss = append(ss, s)
-	}
-	sort.Strings(ss)
-	ob.Solver = strings.Join(ss, "+") + fmt.Sprintf(" (%d chunks)", len(scripts))
 }
